@@ -175,6 +175,12 @@ def oracle_poling(ctx, obs, cases):
                 if z0 != 0:
                     ctx.violation("S5", "infinite period returned although the unpoled mismatch is not zero", {"kind": "poling_infinite"}, rep)
                 continue
+            if ths == 0 and seed > L + 1.0e-6 * (1 + 1e-6):
+                # C04_seed_beyond_length_error: every point the simplex evaluates from the seed pair stays above L
+                ctx.violation("S5", f"optimum_poling_period returned {p!r} m although the exact collinear period 2 pi/|dkz0| = {seed!r} m exceeds the crystal "
+                              f"length {L!r} m by more than the 1 um seed offset: no evaluated period can be admissible, an error was due "
+                              f"({i['crystal']} {i['pm_type']})", {"kind": "poling_ok_beyond_length"}, rep)
+                continue
             if (p > 0) != (z0 > 0) or not (0 < abs(p) <= L):
                 ctx.violation("S5", f"period {p!r} m: sign must be that of the unpoled dkz ({z0!r}) and |period| <= L = {L!r}",
                               {"kind": "poling_sign_bound", "route": "optimum_poling_period"}, rep)
